@@ -166,6 +166,9 @@ def run(chk, prog):
                     if a.kind == "store" and a.base == "_offset" and a.idx is not None:
                         A.require(len(a.loops) >= 1, "%s: _offset store outside a loop" % f["qname"])
                         L = a.loops[0]
+                        if a.loops[-1].cmp == "range" and a.idx[0] == a.loops[-1].sym:
+                            # for (auto& o : _offset): an in-place pass over the rows already there; adds no rows
+                            continue
                         A.require(a.idx[0] == L.sym and L.lo == 0, "%s: _offset filled at %s, not at the loop variable" % (f["qname"], a.idx[0]))
                         hi = S.norm(L.hi).subs({sp.Symbol("_xsize", real=True): xs, sp.Symbol("_ysize", real=True): ys})
                         fill_rows = hi if fill_rows is None else sp.Max(fill_rows, hi)
